@@ -726,6 +726,7 @@ pub fn run(ctx: &mut Ctx) -> Result<(), Violation> {
     let wc = ctx.tier.cases(4_000, 150_000);
     crate::wide::stage_conn(ctx, "wide-functions-canonical-results", true, wc)?;
     crate::wide::stage_collisions(ctx, "equal-hash-sub-diagrams-under-one-root", "canon")?;
+    crate::wide::fuzz_kind(ctx, "canon", replay)?;
     Ok(())
 }
 
